@@ -180,7 +180,7 @@ def post(Tt, rec):
 
 def main():
     thorough = common.tier() == "thorough"
-    ps = progs.corpus(big=True) + gen.generated_programs(300 if thorough else 40, common.seed())
+    ps = progs.corpus(big=True) + gen.generated_programs(300 if thorough else 60, common.seed())
     text = ("Frame lemma by read-set analysis of the real AST (proved for all programs): representation options are read only inside CodegenCtx. Per program: compiled DFAs identical across "
             f"{len(OPTSETS)} representation option sets (bounded-exact), and under each of them the emitted C is proved (csem+z3) to execute that machine on a representation-independent abstraction.")
     rep, recs = T.run("C12", {"refine", "endfx", "consume", "chunk", "coherence"}, "translation_validation", text, optsets=OPTSETS, programs=ps, post=post,
